@@ -51,6 +51,7 @@ fn check_case(ctx: &Ctx, stream: &str, idx: u64, scfg: &SCfg, inserts: &[Entry],
     let (sink, _shared) = MonSink::new("out", SplitState::full(), None);
     let mf = MonMerge::with_plan(MergeKind::Last, None);
     let mut last_bounds = 0usize;
+    let mut last_len = 0usize;
     let mut last_creates = 0u64;
     let out_cfg = gen::WCfg::plain();
     let r = run_sorter(scfg, mf, cc, inserts, route, &out_cfg, sink, |s, i| {
@@ -65,13 +66,15 @@ fn check_case(ctx: &Ctx, stream: &str, idx: u64, scfg: &SCfg, inserts: &[Entry],
             m.first_bound_violation = Some(format!("after insert #{}: {} bytes inserted since the last spill, bound {} (T = {})", i, m.since, bound, t));
         }
         let now_creates = creates.load(Ordering::SeqCst);
-        if st.2 != last_bounds + 1 {
-            // the buffer was emptied during this insert: a spill
+        // the buffer was emptied during this insert (a spill) iff it held entries before and now
+        // holds exactly the entry just inserted
+        if last_bounds >= 1 && st.2 == 1 && st.1 as u64 == pending && (last_bounds > 1 || last_len != 0) {
             m.spills_seen_by_h3 += 1;
             if now_creates == last_creates {
                 m.spills_without_create += 1;
             }
         }
+        last_len = st.1;
         last_bounds = st.2;
         last_creates = now_creates;
     });
